@@ -230,7 +230,7 @@ def c05_generate(rng, thorough):
 
 
 def main():
-    chk = Check('C05')
+    chk = Check('C05', extra_modules=['Bardolph.Proofs.Ctl', 'Bardolph.Proofs.WfCert'])
     chk.lean_phase(sections=set())
     env.configure_basic()
     from bardolph.parser.parse import Parser
